@@ -319,8 +319,18 @@ def r6(ctx):
     for name in ("word_chars", "numeric_chars", "whitespace_chars"):
         d = defaults.get(name)
         if isinstance(d, ast.Call) and dotted(d.func) in ("re.compile", "compile") and d.args and isinstance(d.args[0], ast.Constant) and isinstance(d.args[0].value, str):
+            flags = 0
+            fl = d.args[1] if len(d.args) > 1 else kwarg(d, "flags")
+            unknown = False
+            for x in (ast.walk(fl) if fl is not None else []):
+                if isinstance(x, ast.Attribute) and dotted(x.value) == "re":
+                    flags |= int(getattr(re, x.attr, 0))
+                elif isinstance(x, (ast.Call, ast.Name)) and not (isinstance(x, ast.Name) and x.id == "re"):
+                    unknown = True
+            if unknown:
+                continue
             try:
-                pats[name] = re.compile(d.args[0].value)
+                pats[name] = re.compile(d.args[0].value, flags)
             except re.error:
                 pass
     ctx.floor("C15.R6", len(pats), 3, "default character-class patterns that are constant")
@@ -328,6 +338,11 @@ def r6(ctx):
     bad = [c for c in ascii_ws if not pats["whitespace_chars"].match(c) or pats["word_chars"].match(c)]
     ctx.check(not bad, "C15.R6", "every ASCII whitespace character is whitespace, and not a word character, for the tokenizer", f.where, ctx.construct(f, text="whitespace class"),
               f"{[repr(c) for c in bad]} are not (only) whitespace under the default patterns: re-spacing with them changes the tokens")
+    uni_ws = ["\u00a0", "\u2009", "\u3000", "\u2028", "\u1680", "\u205f"]
+    bad = [c for c in uni_ws if c.isspace() and not pats["whitespace_chars"].match(c)]
+    ctx.check(not bad, "C15.R6", "Unicode whitespace (no-break space, thin space, ideographic space, …) is whitespace for the tokenizer too", f.where,
+              ctx.construct(f, text="unicode whitespace class"),
+              f"{[hex(ord(c)) for c in bad]} are str.isspace() characters that the default whitespace pattern does not match (re.ASCII?): they become part of an operator token")
     bad = [c for c in "abzAZ_09." if not pats["word_chars"].match(c)] + [c for c in "0123456789" if not pats["numeric_chars"].match(c)]
     ctx.check(not bad, "C15.R6", "letters, digits, `_` and `.` are word characters; digits are numeric characters", f.where, ctx.construct(f, text="word class"),
               f"{bad} are not recognised")
